@@ -8,7 +8,9 @@ import fcntl, glob, hashlib, json, os, shutil, subprocess, sys, time
 
 VERIF = os.path.dirname(os.path.dirname(os.path.abspath(__file__)))
 REPO = os.environ.get("VERIF_REPO", "/repo")
-BUILD = os.path.join(VERIF, ".build")
+# VERIF_BUILD_DIR: a private build/cache directory, so that several scratch trees can be extracted at the same time (the shared one is
+# serialised by a lock around its cargo target directories); used by tools/seed_subset.sh and tools/refactor_matrix.sh only
+BUILD = os.environ.get("VERIF_BUILD_DIR") or os.path.join(VERIF, ".build")
 TOOLS = os.path.join(VERIF, "tools")
 SRCFACTS = os.path.join(TOOLS, "srcfacts/target/release/srcfacts")
 MIRFACTS = os.path.join(TOOLS, "mirfacts/target/release/mirfacts")
